@@ -222,8 +222,8 @@ theorem marked_input (E : Env) (fuel : Nat) (out : Ty) (conv : Plan) (v : Value)
 well-typed value of the same type that `v` admits — a null, a more refined unknown, or a known value,
 marked or not.  The result for `v` admits the result for `v'` (`Covers`), whichever conversion
 (`GetConversion` or `GetConversionUnsafe`), environment and fuels.  (List and map targets:
-`unknown_covers_coll_partial`; for set targets, where members may coalesce, the `Covers` statement is
-searched by the harness — `cv.admits` — and `unknown_sound_partial` gives the bounds.) -/
+`unknown_covers_coll_partial`; set targets, where members may coalesce: `unknown_covers_set_partial`;
+the admitted null, every target: `unknown_covers_null_partial`.) -/
 theorem unknown_covers_prim_partial (E : Env) (hU : UnifyLaws E) (fuel fuel' : Nat) (uns : Bool)
     (v v' r r' : Value) (want : Ty) (p : Plan) (hpv : isPrim v.ty = true) (hw : isPrim want = true)
     (hwt : wtP v.ty v.v = true) (hwt' : wtP v'.ty v'.v = true) (hty : v'.ty = v.ty)
@@ -246,6 +246,28 @@ theorem unknown_covers_coll_partial (E : Env) (hU : UnifyLaws E) (fuel fuel' : N
     (hfit : (srcLen v'.v.unmark1 : Int) ≤ CtyModel.maxInt) (hc : Covers v v' = true)
     (h : apply E fuel p v = .ok r) (h' : apply E fuel' p v' = .ok r') : Covers r r' = true :=
   unknown_covers_coll hU hT hp hwt' hty hg hk hk' hn' hwk' hfit hc h h'
+
+/-- SET TARGETS.  As `unknown_covers_coll_partial`, for a conversion to a set type: the converted known
+value may have fewer members than the admitted value had (members coalesce) but not none if it had
+any, and that is exactly what the result for the unknown says — lower bound 1 if the source cannot be
+empty, the source's upper bound, and when both are 0 or 1 the known empty set / the set of one unknown
+member. -/
+theorem unknown_covers_set_partial (E : Env) (hU : UnifyLaws E) (fuel fuel' : Nat) (uns : Bool)
+    (v v' r r' : Value) (oe : Ty) (p : Plan)
+    (hp : RegularPair v (.set oe)) (hwt' : wtP v'.ty v'.v = true) (hty : v'.ty = v.ty)
+    (hg : getConv E v.ty (.set oe) uns = some p) (hk : v.isKnown = false)
+    (hk' : v'.isKnown = true) (hn' : v'.isNull = false) (hwk' : v'.v.whollyKnown = true)
+    (hfit : (srcLen v'.v.unmark1 : Int) ≤ CtyModel.maxInt) (hc : Covers v v' = true)
+    (h : apply E fuel p v = .ok r) (h' : apply E fuel' p v' = .ok r') : Covers r r' = true :=
+  unknown_covers_set hU hp hwt' hty hg hk hk' hn' hwk' hfit hc h h'
+
+/-- Conversions to a set type never invent members and never lose all of them. -/
+theorem set_length_bounds_partial (E : Env) (hU : UnifyLaws E) (fuel : Nat) (uns : Bool) (v r : Value)
+    (oe : Ty) (p : Plan) (hp : RegularPair v (.set oe)) (hg : getConv E v.ty (.set oe) uns = some p)
+    (hm : v.isMarked = false) (hk : v.isKnown = true) (hn : v.isNull = false)
+    (h : apply E fuel p v = .ok r) :
+    ∃ ids xs, r.v.stripMarks = .sset ids xs ∧ min 1 (srcLen v.v) ≤ xs.length ∧ xs.length ≤ srcLen v.v :=
+  apply_len_set hU hp hg hm hk hn h
 
 /-- the collapse at work: an unknown list of exactly two strings, not null, converts to the KNOWN list of two
 unknown numbers, which admits the conversion `[1, 2]` of the admitted `["1", "2"]` -/
